@@ -120,6 +120,49 @@ fn roundtrip<V: Serialize + DeserializeOwned + PartialEq + Clone>(ctx: &mut Ctx,
     Some(back)
 }
 
+/// C19, copies: clone_from into values that held something else must yield a value equal to the source (and, where a
+/// sweep is given, one that answers like it).
+fn c19_clone_from<V: Clone + PartialEq>(ctx: &mut Ctx, cl: &str, v: &V, donors: Vec<V>, d0: Option<u64>, sweep: &dyn Fn(&mut Ctx, &V)) {
+    for (k, mut d) in donors.into_iter().enumerate() {
+        if ctx.total("clone_from", cl, k as u128, 0, 0, || d.clone_from(v)).is_none() {
+            continue;
+        }
+        ctx.obs("clone_from(x) == x", cl, k as u128, 0, 0, Exp::Is(true), || d == *v);
+        ctx.obs("x == clone_from(x)", cl, k as u128, 0, 0, Exp::Is(true), || *v == d);
+        if let Some(d0) = d0 {
+            let dd = ctx.digest_of(|c| sweep(c, &d));
+            if dd != d0 {
+                let before = ctx.total_viols;
+                sweep(ctx, &d);
+                if ctx.total_viols == before {
+                    ctx.violation("clone_from", cl, format!("donor {k}: full sweep"), "identical answers".into(), "answers differ".into());
+                }
+            }
+        }
+    }
+}
+
+/// positions p such that bits[p] != bits[p+1], in the layout classes that matter (first word, middle, last word)
+fn swap_sites(bits: &[bool]) -> Vec<usize> {
+    let n = bits.len();
+    let mut out = Vec::new();
+    if n < 2 {
+        return out;
+    }
+    let last_word = (n - 1) / 64 * 64;
+    for range in [0..n.min(64) - 1, (n / 2).saturating_sub(32)..(n / 2 + 32).min(n - 1), last_word.min(n - 2)..n - 1, n.saturating_sub(66).min(n - 2)..n - 1] {
+        if let Some(p) = range.clone().find(|&p| bits[p] != bits[p + 1]) {
+            out.push(p);
+        }
+        if let Some(p) = range.rev().find(|&p| bits[p] != bits[p + 1]) {
+            out.push(p);
+        }
+    }
+    out.sort_unstable();
+    out.dedup();
+    out
+}
+
 // ------------------------------------------------------------------------------------------------
 // trees
 
@@ -170,7 +213,26 @@ fn run_tree<X: Tree>(ctx: &mut Ctx, prop: &str, gen: &Gen, vm: &str) {
                 ctx.mix_digest(d);
             }
         }
-        "C10" => c10_tree(ctx, &t, &r, &o),
+        "C10" => {
+            c10_tree(ctx, &t, &r, &o);
+            // the same on copies: a deserialized one, and clone_from into trees that held a smaller / a larger alphabet
+            let mut o2 = o.clone();
+            o2.class = format!("{cl} copy").trim().to_string();
+            if let Some(d) = ctx.total("deserialize(serialize(..))", &o2.class, 0, 0, 0, || derived(&t, 2, X::default)) {
+                c10_tree(ctx, &d, &r, &o2);
+            }
+            let tmax: u128 = if X::T::BITS == 128 { u128::MAX } else { (1u128 << X::T::BITS) - 1 };
+            let cap = if X::HUFF { tmax.min(65535) } else { tmax };
+            let maxv = vals.iter().map(|x| x.to_u128()).max().unwrap_or(0);
+            let larger: Vec<X::T> = vals.iter().copied().chain(std::iter::repeat(X::T::from_u128((maxv.saturating_mul(4).saturating_add(7)).min(cap))).take(300)).collect();
+            let smaller: Vec<X::T> = vec![vals.iter().copied().min().unwrap_or(X::T::from_u128(0)); (n / 2).max(1)];
+            for (k, dv) in [smaller, larger].into_iter().enumerate() {
+                let Some(mut d) = build_tree::<X>(ctx, &dv, 1, &o2.class) else { continue };
+                if ctx.total("clone_from", &o2.class, k as u128, 0, 0, || d.clone_from(&t)).is_some() {
+                    c10_tree(ctx, &d, &r, &o2);
+                }
+            }
+        }
         "C11" => {
             let Some(back) = roundtrip(ctx, &t, &cl) else { return };
             let d1 = ctx.digest_of(|c| sweep_tree(c, &t, &r, &o));
@@ -206,6 +268,34 @@ fn run_tree<X: Tree>(ctx: &mut Ctx, prop: &str, gen: &Gen, vm: &str) {
                 ctx.obs("clone == original", &cl, path as u128, 0, 0, Exp::Is(true), || t2.clone() == t2);
             }
             ctx.obs("clone == original", &cl, 0, 0, 0, Exp::Is(true), || t.clone() == t);
+            // clone_from into values that held something else: Default, a longer sequence with a larger maximum, a
+            // shorter one with a smaller maximum
+            {
+                let tmax: u128 = if X::T::BITS == 128 { u128::MAX } else { (1u128 << X::T::BITS) - 1 };
+                let maxv = vals.iter().map(|x| x.to_u128()).max().unwrap_or(0);
+                let cap = if X::HUFF { tmax.min(65535) } else { tmax };
+                let longer: Vec<X::T> = vals.iter().copied().chain(std::iter::repeat(X::T::from_u128((maxv.saturating_mul(4).saturating_add(7)).min(cap))).take(300)).collect();
+                let shorter: Vec<X::T> = vec![vals.iter().copied().min().unwrap_or(X::T::from_u128(0)); (n / 2).max(1)];
+                for (k, dv) in [None, Some(longer), Some(shorter)].into_iter().enumerate() {
+                    let donor = match dv {
+                        None => Some(X::default()),
+                        Some(v) => build_tree::<X>(ctx, &v, 1, &cl),
+                    };
+                    let Some(mut d) = donor else { continue };
+                    if ctx.total("clone_from", &cl, k as u128, 0, 0, || d.clone_from(&t)).is_none() {
+                        continue;
+                    }
+                    ctx.obs("clone_from(x) == x", &cl, k as u128, 0, 0, Exp::Is(true), || d == t);
+                    let dd = ctx.digest_of(|c| sweep_tree(c, &d, &r, &o));
+                    if dd != d0 {
+                        let before = ctx.total_viols;
+                        sweep_tree(ctx, &d, &r, &o);
+                        if ctx.total_viols == before {
+                            ctx.violation("clone_from", &cl, format!("donor {k}: full sweep"), "identical answers".into(), "answers differ".into());
+                        }
+                    }
+                }
+            }
             if !X::HUFF {
                 // `t` has answered queries by now: a value that has not must still compare equal to it
                 if let Some(fresh) = build_tree::<X>(ctx, &vals, 1, &cl) {
@@ -473,6 +563,11 @@ fn run_quad<X: QuadRS>(ctx: &mut Ctx, prop: &str, gen: &Gen) {
                 ctx.obs("path == new()", "", 0, 0, 0, Exp::Is(true), || t2 == t);
             }
             ctx.obs("clone == original", "", 0, 0, 0, Exp::Is(true), || t.clone() == t);
+            {
+                let n = q.len();
+                let donors = vec![X::default(), X::new_u8(&vec![3u8; n + 700]), X::new_u8(&vec![1u8; (n / 2).max(1)])];
+                c19_clone_from(ctx, "", &t, donors, Some(d0), &|c, x| sweep_quadrs(c, x, &r, dense, false, ""));
+            }
             ctx.obs("never queried value == queried value", "", 0, 0, 0, Exp::Is(true), || X::new_u8(&q) == t);
             if !q.is_empty() && q.len() <= 9000 {
                 let n = q.len();
@@ -538,7 +633,23 @@ fn run_bin<X: BinRS>(ctx: &mut Ctx, prop: &str, gen: &BitGen) {
     let r = RefBits::new(&bits);
     ctx.set_ty(X::NAME);
     ctx.note_input(&bits, !bits.is_empty());
-    let Some(t) = ctx.total("construct", "", 0, bits.len() as u64, 0, || X::new_(bits.iter().copied().collect::<BitVector>())) else { return };
+    let Some(t) = ctx.total("construct", "", 0, bits.len() as u64, 0, || {
+        // C10: the bit vector under the structure comes from every route the API offers (chosen by the content): bools,
+        // sorted positions, repeated unsorted positions
+        let route = if prop == "C10" && bits.last() == Some(&true) { h64(&bits) % 3 } else { 0 };
+        let bv: BitVector = match route {
+            1 => r.ones.iter().copied().collect(),
+            2 => {
+                let mut messy: Vec<usize> = r.ones.iter().rev().copied().collect();
+                messy.extend(r.ones.iter().copied().step_by(2));
+                messy.into_iter().collect()
+            }
+            _ => bits.iter().copied().collect(),
+        };
+        X::new_(bv)
+    }) else {
+        return;
+    };
     let n = bits.len();
     let dense = if n <= 600 { 8193 } else { 300 };
     match prop {
@@ -603,6 +714,16 @@ fn run_bin<X: BinRS>(ctx: &mut Ctx, prop: &str, gen: &BitGen) {
                 }
             }
             ctx.obs("clone == original", "", 0, 0, 0, Exp::Is(true), || t.clone() == t);
+            {
+                let nb = bits.len();
+                let donors = vec![X::default(), X::new_((0..nb + 1400).map(|i| i % 3 != 0).collect::<BitVector>()), X::new_((0..(nb / 2).max(1)).map(|_| false).collect::<BitVector>())];
+                c19_clone_from(ctx, "", &t, donors, Some(d0), &|c, x| sweep_binrs(c, x, &r, dense, false, ""));
+                for p in swap_sites(&bits) {
+                    let mut b2 = bits.clone();
+                    b2.swap(p, p + 1);
+                    ctx.obs("!= vector with two neighbouring bits swapped", "", p as u128, 0, 0, Exp::Is(false), || X::new_(b2.iter().copied().collect::<BitVector>()) == t);
+                }
+            }
             ctx.obs("never queried value == queried value", "", 0, 0, 0, Exp::Is(true), || X::new_(bits.iter().copied().collect::<BitVector>()) == t);
             ctx.obs("clone of queried value == never queried value", "", 0, 0, 0, Exp::Is(true), || t.clone() == X::new_(bits.iter().copied().collect::<BitVector>()));
             if !bits.is_empty() {
@@ -677,6 +798,16 @@ fn run_darr<const S0: bool>(ctx: &mut Ctx, prop: &str, gen: &BitGen) {
                 }
             }
             ctx.obs("clone == original", "", 0, 0, 0, Exp::Is(true), || t.clone() == t);
+            {
+                let nb = bits.len();
+                let donors = vec![DArray::<S0>::default(), (0..nb + 70_000).map(|i| i % 3 != 0 || i > nb).collect::<DArray<S0>>(), (0..(nb / 2).max(1)).map(|i| i % 2000 == 0).collect::<DArray<S0>>()];
+                c19_clone_from(ctx, "", &t, donors, Some(d0), &|c, x| quiet(|| sweep_darray(c, x, &r, dense, false, "", &starts)));
+                for p in swap_sites(&bits) {
+                    let mut b2 = bits.clone();
+                    b2.swap(p, p + 1);
+                    ctx.obs("!= vector with two neighbouring bits swapped", "", p as u128, 0, 0, Exp::Is(false), || b2.iter().copied().collect::<DArray<S0>>() == t);
+                }
+            }
             ctx.obs("never queried value == queried value", "", 0, 0, 0, Exp::Is(true), || DArray::<S0>::new(bits.iter().copied().collect::<BitVector>()) == t);
             if !bits.is_empty() {
                 let mut b2 = bits.clone();
@@ -748,6 +879,18 @@ fn run_bits(ctx: &mut Ctx, prop: &str, mutable: bool, gen: &BitGen) {
                     ctx.obs("collect(positions) == collect(bools)", "", 0, 0, 0, Exp::Is(true), || r.ones.iter().copied().collect::<BitVectorMut>() == b);
                 }
                 ctx.obs("clone == original", "", 0, 0, 0, Exp::Is(true), || b.clone() == b);
+                {
+                    let mut big = BitVectorMut::with_capacity(5000);
+                    for _ in 0..2000 {
+                        big.push(true);
+                    }
+                    c19_clone_from(ctx, "", &b, vec![BitVectorMut::default(), big, BitVectorMut::with_zeros(3)], None, &|_, _| {});
+                    for p in swap_sites(&bits) {
+                        let mut b2 = bits.clone();
+                        b2.swap(p, p + 1);
+                        ctx.obs("!= vector with two neighbouring bits swapped", "", p as u128, 0, 0, Exp::Is(false), || b2.iter().copied().collect::<BitVectorMut>() == b);
+                    }
+                }
                 if bits.last() == Some(&true) {
                     // a position list may repeat positions and need not be sorted
                     let mut messy: Vec<usize> = r.ones.iter().rev().copied().collect();
@@ -800,6 +943,15 @@ fn run_bits(ctx: &mut Ctx, prop: &str, mutable: bool, gen: &BitGen) {
                     ctx.obs("count_ones of collect(positions, repeated and unsorted)", "", 0, 0, 0, Exp::Is(r.ones.len()), || messy.iter().copied().collect::<BitVector>().count_ones());
                 }
                 ctx.obs("clone == original", "", 0, 0, 0, Exp::Is(true), || b.clone() == b);
+                {
+                    let donors = vec![BitVector::default(), (0..2000).map(|_| true).collect::<BitVector>(), (0..3).map(|_| false).collect::<BitVector>()];
+                    c19_clone_from(ctx, "", &b, donors, None, &|_, _| {});
+                    for p in swap_sites(&bits) {
+                        let mut b2 = bits.clone();
+                        b2.swap(p, p + 1);
+                        ctx.obs("!= vector with two neighbouring bits swapped", "", p as u128, 0, 0, Exp::Is(false), || b2.iter().copied().collect::<BitVector>() == b);
+                    }
+                }
                 if n > 0 {
                     let mut b2 = bits.clone();
                     b2[n / 2] = !b2[n / 2];
@@ -909,7 +1061,7 @@ fn quad_subjects(v: &mut Vec<Subject>, prop: &str, th: bool) {
 fn bit_gens(th: bool) -> Vec<BitGen> {
     let mut g = tinybits_all(if th { 11 } else { 9 });
     for &n in &[63usize, 64, 65, 511, 512, 513, 1000, 4095, 4096, 4097, 7700, 8000, 8191, 8192, 8193, 16000, 16383, 32768, 65537] {
-        for pat in [BitPat::Zeros, BitPat::Ones, BitPat::Alt, BitPat::Runs(512), BitPat::OnePer(1024), BitPat::ZeroPer(8192), BitPat::HalfOnes, BitPat::SingleOne(1), BitPat::SingleZero(2), BitPat::OnePer(7)] {
+        for pat in [BitPat::Zeros, BitPat::Ones, BitPat::Alt, BitPat::Runs(512), BitPat::OnePer(1024), BitPat::ZeroPer(8192), BitPat::HalfOnes, BitPat::SingleOne(1), BitPat::SingleZero(2), BitPat::OnePer(7), BitPat::OnePer(63), BitPat::OnePer(64), BitPat::OnePer(65), BitPat::ZeroPer(64)] {
             g.push(BitGen::Pat { n, pat });
         }
     }
@@ -938,6 +1090,8 @@ fn darr_gens(th: bool) -> Vec<BitGen> {
             g.push(BitGen::Pat { n, pat });
         }
     }
+    // a few ones whose gaps sit on the 16-bit boundary (65534 / 65535 / 65536)
+    g.extend(boundary_gap_lists(if th { 3 } else { 2 }).into_iter().filter(|x| matches!(x, BitGen::Pos { tail: 0, .. })));
     g
 }
 
